@@ -32,6 +32,7 @@ CONSTANTS
   ArgLens,       \* calldata lengths, subset of {0,1,4,33}
   Overs,         \* subset of BOOLEAN: return area on top of the argument area
   InitProgs,     \* subset of {"stop","sstore","revert","invalid","big"}
+  GasModes,      \* subset of {"all", "none"}: a call instruction forwards all gas (GAS) or none (0)
   FailKinds,     \* subset of {"err","oog","rev"} for the injected join-point failure
   MaxFailPos,    \* the failure is injected at firing number 1..MaxFailPos (0 = never)
   BoundSets,     \* set of sets of contracts that have a (benign) Aspect bound to both join points
@@ -68,13 +69,13 @@ vars == <<world, frames, tree, jrn, jp, ev, host, budget, scn>>
 Creators == {"a", "b"}
 Created(c, n) == c \o "#" \o ToString(n)
 Created2(c, p) == c \o "~" \o p
-Base == {"eoa", "a", "b", "n", "p", "pw"}
+Base == {"eoa", "a", "b", "n", "p", "pw", "z"}     \* z: a deployed contract whose code is a single STOP
 AllAddr == Base \cup {Created(c, n) : c \in Creators \cup {"eoa"}, n \in 0..3}
                 \cup {Created2(c, p) : c \in Creators, p \in InitProgs}
 Precompiles == {"p"} \cup (IF Berlin THEN {"pw"} ELSE {})
 
 NoInstr == [op |-> "", kind |-> "", tgt |-> "", val |-> 0, alen |-> 0, over |-> FALSE,
-            slot |-> 0, child |-> 0, init |-> ""]
+            slot |-> 0, child |-> 0, init |-> "", gm |-> "all"]
 Instr(op) == [NoInstr EXCEPT !.op = op]
 
 ---------------------------------------------------------------------------
@@ -84,9 +85,9 @@ World0 ==
   [ bal    |-> [x \in AllAddr |-> IF x = "eoa" THEN 5 ELSE IF x = "a" THEN 2 ELSE 0],
     stor   |-> [x \in AllAddr |-> [s \in {0, 1} |-> 0]],
     tstor  |-> [x \in AllAddr |-> 0],
-    code   |-> [x \in AllAddr |-> IF x \in {"a", "b"} THEN "prog" ELSE "none"],
-    exists |-> {"eoa", "a", "b"},
-    nonce  |-> [x \in AllAddr |-> IF x \in {"a", "b"} THEN 1 ELSE 0],
+    code   |-> [x \in AllAddr |-> IF x \in {"a", "b"} THEN "prog" ELSE IF x = "z" THEN "stub" ELSE "none"],
+    exists |-> {"eoa", "a", "b", "z"},
+    nonce  |-> [x \in AllAddr |-> IF x \in {"a", "b", "z"} THEN 1 ELSE 0],
     logs   |-> <<>>,
     dead   |-> {} ]
 
@@ -162,7 +163,7 @@ NewFrame(id, kind, from, self, codeAt, value, static, alen, init) ==
   [ id |-> id, kind |-> kind, from |-> from, self |-> self, codeAt |-> codeAt, value |-> value,
     static |-> static, phase |-> "entry", node |-> 0, hasNode |-> FALSE, w0 |-> world, snapped |-> FALSE,
     announced |-> FALSE, running |-> FALSE, err |-> "", ret |-> "", flags |-> <<>>, alen |-> alen,
-    init |-> init, ran |-> FALSE, over |-> FALSE ]
+    init |-> init, ran |-> FALSE, over |-> FALSE, gz |-> FALSE ]   \* gz: the frame was given no gas at all
 
 Desc(id, kind, parent, from, value, codeAt, self, alen, init) ==
   [ id |-> id, kind |-> kind, parent |-> parent, from |-> from, value |-> value, codeAt |-> codeAt, self |-> self, alen |-> alen,
@@ -264,10 +265,13 @@ CtxWriteOK(f) == f.kind = "CALL"
 CallBodyTrivial ==
   /\ frames # <<>> /\ Top.phase = "body" /\ ~IsCreateFrame(Top)
   /\ LET f == Top IN
-     \/ /\ f.codeAt = "p"     \* the identity precompile hands its input back
+     \/ /\ f.codeAt \in Precompiles /\ f.gz  \* the fixed fee cannot be paid
+        /\ frames' = SetTop([f EXCEPT !.phase = "settle", !.err = "oog"])
+        /\ UNCHANGED host
+     \/ /\ f.codeAt = "p" /\ ~f.gz    \* the identity precompile hands its input back
         /\ frames' = SetTop([f EXCEPT !.phase = "settle", !.ret = IF f.alen > 0 THEN "in" ELSE ""])
         /\ UNCHANGED host
-     \/ /\ f.codeAt = "pw" /\ Berlin
+     \/ /\ f.codeAt = "pw" /\ Berlin /\ ~f.gz
         /\ IF CtxWriteOK(f)
            THEN /\ host' = [host EXCEPT !.writes = Append(@, [by |-> f.from, frame |-> f.id])]
                 /\ frames' = SetTop([f EXCEPT !.phase = "settle"])
@@ -430,12 +434,19 @@ CreateOpen ==
 ---------------------------------------------------------------------------
 (* Instructions of the running frame *)
 
-Running == frames # <<>> /\ Top.phase = "run" /\ Top.init = ""
+Running == frames # <<>> /\ Top.phase = "run" /\ Top.init = "" /\ ~Top.gz
 CanStep == Running /\ budget.instr > 0
 
 Fail(f, e) == [f EXCEPT !.phase = IF IsCallFrame(f) THEN "postjp" ELSE "settle", !.err = e, !.ret = "", !.running = FALSE]
 Halt(f, r) == [f EXCEPT !.phase = IF IsCallFrame(f) THEN "postjp" ELSE "settle", !.ret = r, !.running = FALSE]
 Tick == budget' = [budget EXCEPT !.instr = @ - 1]
+
+\* a frame that was given no gas runs out of gas at the first instruction that costs anything
+\* (the compiled contracts start with a dispatcher; the one-STOP contract z is the exception, see InitStep)
+GzRun ==
+  /\ frames # <<>> /\ Top.phase = "run" /\ Top.init = "" /\ Top.gz
+  /\ frames' = SetTop([Top EXCEPT !.phase = IF IsCallFrame(Top) THEN "postjp" ELSE "settle", !.err = "oog", !.ret = "", !.running = FALSE])
+  /\ UNCHANGED <<world, tree, jrn, jp, ev, host, budget, scn>>
 
 ISStore ==
   /\ CanStep /\ "SSTORE" \in Ops
@@ -521,21 +532,23 @@ IHalt ==
 \* a call instruction pushes a child frame; the issuer waits below it
 ICall ==
   /\ CanStep /\ "CALL" \in Ops /\ budget.nodes > 0
-  /\ \E k \in CallKinds, tgt \in Targets, v \in Values, al \in ArgLens, ov \in Overs :
+  /\ \E k \in CallKinds, tgt \in Targets, v \in Values, al \in ArgLens, ov \in Overs, gm \in GasModes :
        LET id == Len(scn.frames) + 1
            p == Top
            self == IF k \in {"CALLCODE", "DELEGATECALL"} THEN p.self ELSE tgt
            val == IF k \in {"CALL", "CALLCODE"} THEN v ELSE IF k = "DELEGATECALL" THEN p.value ELSE 0
-           child == NewFrame(id, k, p.self, self, tgt, val, p.static \/ k = "STATICCALL", al, "")
+           child == [NewFrame(id, k, p.self, self, tgt, val, p.static \/ k = "STATICCALL", al, "") EXCEPT !.gz = (gm = "none")]
        IN /\ (k \in {"DELEGATECALL", "STATICCALL"} => v = 0)
+          \* no gas forwarded: without a value stipend, and not to a contract whose (real) Aspect would need gas
+          /\ (gm = "none" => (v = 0 /\ ~(jp.on /\ tgt \in jp.bound)))
           /\ (al = 0 => (tgt \in {"a", "b"} => EmptyDataFree(tgt)))
           /\ (ov => al > 0)
           /\ IF p.static /\ k = "CALL" /\ v # 0
              THEN \* opCall: write protection, the instruction itself faults; no call attempt
                   /\ frames' = SetTop(Fail(p, "wp"))
-                  /\ scn' = AddProg([Instr("CALL") EXCEPT !.kind = k, !.tgt = tgt, !.val = v, !.alen = al, !.over = ov, !.child = 0])
+                  /\ scn' = AddProg([Instr("CALL") EXCEPT !.kind = k, !.tgt = tgt, !.val = v, !.alen = al, !.over = ov, !.child = 0, !.gm = gm])
              ELSE /\ frames' = Append(SetTop([p EXCEPT !.over = ov]), child)
-                  /\ scn' = [AddProg([Instr("CALL") EXCEPT !.kind = k, !.tgt = tgt, !.val = v, !.alen = al, !.over = ov, !.child = id])
+                  /\ scn' = [AddProg([Instr("CALL") EXCEPT !.kind = k, !.tgt = tgt, !.val = v, !.alen = al, !.over = ov, !.child = id, !.gm = gm])
                              EXCEPT !.frames = Append(@, Desc(id, k, p.id, p.self, val, tgt, self, al, ""))]
   /\ budget' = [budget EXCEPT !.instr = @ - 1, !.nodes = @ - 1]
   /\ UNCHANGED <<world, tree, jrn, jp, ev, host>>
@@ -593,7 +606,7 @@ Next ==
   \/ CallEntry \/ CallRefuse \/ CallOpen \/ CallBodyTrivial \/ PreJP \/ PostJP
   \/ SettleNotDeposit \/ CreateDeposit \/ FrameExit
   \/ OtherEntry \/ CreateEntry \/ CreateRefuse \/ CreateOpen \/ InitStep
-  \/ ISStore \/ ILog \/ ITStore \/ IT2S \/ IRegKey \/ IJournal \/ ISelfdestruct \/ IHalt \/ ICall \/ ICreate
+  \/ GzRun \/ ISStore \/ ILog \/ ITStore \/ IT2S \/ IRegKey \/ IJournal \/ ISelfdestruct \/ IHalt \/ ICall \/ ICreate
 
 Spec == Init /\ [][Next]_vars
 
